@@ -32,6 +32,8 @@ pub struct InstanceState {
     most_recent_disposed_generation_count: i32,
     most_recent_no_writers_generation_count: i32,
     last_received_time_stamp: Time,
+    /// Source timestamp of the last sample of the instance that was added to the reader cache
+    last_accepted_source_timestamp: Option<Time>,
     /// Writers known to have the instance registered
     live_writer_list: Vec<[u8; 16]>,
 }
@@ -45,6 +47,7 @@ impl InstanceState {
             most_recent_disposed_generation_count: 0,
             most_recent_no_writers_generation_count: 0,
             last_received_time_stamp: Time::new(TIME_INVALID_SEC, TIME_INVALID_NSEC),
+            last_accepted_source_timestamp: None,
             live_writer_list: Vec::new(),
         }
     }
@@ -450,26 +453,31 @@ impl<T> DataReaderEntity<T> {
             }
         }
 
-        let is_sample_of_interest_based_on_time = {
-            let closest_timestamp_before_received_sample = self
-                .sample_list
-                .iter()
-                .filter(|cc| cc.instance_handle == sample.instance_handle)
-                .filter(|cc| cc.source_timestamp <= sample.source_timestamp)
-                .map(|cc| cc.source_timestamp)
-                .max();
-
-            if let Some(Some(t)) = closest_timestamp_before_received_sample {
-                if let Some(sample_source_time) = sample.source_timestamp {
-                    let sample_separation = sample_source_time - t;
-                    DurationKind::Finite(sample_separation)
-                        >= self.qos.time_based_filter.minimum_separation
-                } else {
-                    true
-                }
-            } else {
-                true
+        // The sample must be separated from the samples of the instance presented to the application:
+        // the ones still stored and the last accepted one, which may have been taken already
+        let is_sample_of_interest_based_on_time = match sample.source_timestamp {
+            Some(sample_source_time) => {
+                let last_accepted_source_timestamp = self
+                    .instances
+                    .iter()
+                    .find(|x| x.handle() == &sample.instance_handle)
+                    .and_then(|x| x.last_accepted_source_timestamp);
+                self.sample_list
+                    .iter()
+                    .filter(|cc| cc.instance_handle == sample.instance_handle)
+                    .filter_map(|cc| cc.source_timestamp)
+                    .chain(last_accepted_source_timestamp)
+                    .all(|t| {
+                        let sample_separation = if sample_source_time >= t {
+                            sample_source_time - t
+                        } else {
+                            t - sample_source_time
+                        };
+                        DurationKind::Finite(sample_separation)
+                            >= self.qos.time_based_filter.minimum_separation
+                    })
             }
+            None => true,
         };
 
         if !is_sample_of_interest_based_on_time {
@@ -584,6 +592,14 @@ impl<T> DataReaderEntity<T> {
                 }
             }
         }?;
+
+        if let Some(instance) = self
+            .instances
+            .iter_mut()
+            .find(|x| x.handle() == &sample.instance_handle)
+        {
+            instance.last_accepted_source_timestamp = sample.source_timestamp;
+        }
 
         let sample_writer_guid = sample.writer_guid;
         tracing::debug!(cache_change = ?sample, "Adding change to data reader history cache");
